@@ -7,8 +7,9 @@
    heap could produce makes [scan] return None / [run] end with EndReject. *)
 From Coq Require Import List Bool NArith ZArith String.
 From Verif.Base Require Import Outcome.
-From Verif.Model Require Import IE KMap Pq Corr Expiry ExpirySpec.
-From Verif.Proofs Require Import KMap_lemmas Expiry_lemmas Progress_lemmas.
+From Coq Require Import Permutation.
+From Verif.Model Require Import IE KMap Pq Corr Expiry ExpirySpec Heap HeapExpiry.
+From Verif.Proofs Require Import KMap_lemmas Expiry_lemmas Progress_lemmas Heap_lemmas HeapRefine_lemmas.
 Import ListNotations.
 Local Open Scope Z_scope.
 
@@ -122,4 +123,133 @@ Example C06_nonvacuous :
               OAdv 2; OScan [] [1%N; 0%N]; OAdv 2; OScan [] [2%N]; OAdv 4; OScan [] [2%N]; OExp] in
   wf_params P0 = true /\ snd (run Fixed P0 ops 0 init) = EndOk /\
   List.length (fst (run Fixed P0 ops 0 init)) = 13%nat.
+Proof. vm_compute. repeat split. Qed.
+
+(* ==== the EXACT array heap (Model/Heap.v: container/heap + priorityqueue.go, line by line) ====
+   [heap_inv h] = [ordered h (length h)] (no child sorts before its parent) /\ [idx_ok h] (every
+   slot's index field is its position). The multiset of items is [map h_data h] up to
+   Permutation. None of the theorems below assumes anything about container/heap: it is modelled. *)
+
+(* the order invariant in the words of container/heap: !h.Less(j, parent(j)) for every j > 0 *)
+Theorem C06_heap_order_is_not_Less : forall h, ordered h (List.length h) <->
+  forall j, (0 < j < List.length h)%nat -> pq_Less h j ((j - 1) / 2) = Ok false.
+Proof. exact ordered_Less. Qed.
+
+(* heap.Push: total (no panic, fuel suffices), keeps the invariant, adds exactly the pushed item *)
+Theorem C06_heap_push : forall h x, heap_inv h ->
+  exists h', heap_Push h x = Ok h' /\ heap_inv h' /\
+    Permutation (map h_data h') (h_data x :: map h_data h) /\ List.length h' = S (List.length h).
+Proof. exact heap_Push_spec. Qed.
+Print Assumptions C06_heap_push.
+
+(* heap.Pop on a non-empty heap: total, keeps the invariant, returns the root with index -1,
+   removes exactly that item, and no item of the heap has an earlier minExpireTime *)
+Theorem C06_heap_pop : forall h, heap_inv h -> h <> [] ->
+  exists x h', heap_Pop h = Ok (x, h') /\ heap_inv h' /\ h_idx x = -1 /\
+    h_data x = h_data (nth 0 h dummy) /\
+    Permutation (h_data x :: map h_data h') (map h_data h) /\
+    (forall y, In y h -> h_min x <= h_min y) /\
+    S (List.length h') = List.length h.
+Proof. exact heap_Pop_spec. Qed.
+Print Assumptions C06_heap_pop.
+
+(* heap.Fix at a valid index after the value there changed arbitrarily ([ord_except]: every
+   pair not involving slot i is ordered, and i's parent is not above i's children) *)
+Theorem C06_heap_fix : forall h i, (i < List.length h)%nat -> ord_except h (List.length h) i -> idx_ok h ->
+  exists h', heap_Fix_nat h i = Ok h' /\ heap_inv h' /\
+    Permutation (map h_data h') (map h_data h) /\ List.length h' = List.length h.
+Proof. exact heap_Fix_nat_spec. Qed.
+Print Assumptions C06_heap_fix.
+
+(* what Go does with an index that is not a position: -1 (detached item): nothing;
+   below -1 and at or beyond Len() (except 0 on the empty slice): run-time panic *)
+Theorem C06_heap_fix_detached : forall h, heap_Fix h (-1) = Ok h.
+Proof. exact heap_Fix_detached. Qed.
+Theorem C06_heap_fix_negative : forall h i, i < -1 -> heap_Fix h i = Panic.
+Proof. exact heap_Fix_negative. Qed.
+Theorem C06_heap_fix_beyond : forall h i, (List.length h <= i)%nat -> (0 < i)%nat -> heap_Fix_nat h i = Panic.
+Proof. exact heap_Fix_beyond. Qed.
+
+(* pq.Update of the item of key k sitting in slot p: total, keeps the invariant, changes
+   exactly that item's deadlines *)
+Theorem C06_heap_update : forall h k p x a i, heap_inv h -> h_find k h = Some (p, x) ->
+  exists h', pq_Update h k a i = Ok h' /\ heap_inv h' /\
+    Permutation (map h_data h') (map h_data (set_nth p (h_set_times x a i) h)) /\
+    List.length h' = List.length h.
+Proof. exact pq_Update_spec. Qed.
+Print Assumptions C06_heap_update.
+
+(* heap.Remove at a valid index (not used by the repository; modelled and proved all the same) *)
+Theorem C06_heap_remove : forall h i, heap_inv h -> (i < List.length h)%nat ->
+  exists x h', heap_Remove h i = Ok (x, h') /\ heap_inv h' /\ h_idx x = -1 /\
+    h_data x = h_data (nth i h dummy) /\
+    Permutation (h_data x :: map h_data h') (map h_data h).
+Proof. exact heap_Remove_spec. Qed.
+Print Assumptions C06_heap_remove.
+
+(* heap.Init (not used by the repository) establishes the invariant from ANY slice whose index
+   fields are consistent, keeping the multiset *)
+Theorem C06_heap_init : forall h, idx_ok h ->
+  exists h', heap_Init h = Ok h' /\ heap_inv h' /\ Permutation (map h_data h') (map h_data h) /\
+    List.length h' = List.length h.
+Proof. exact heap_Init_spec. Qed.
+Print Assumptions C06_heap_init.
+
+(* up and down end within the fuel their callers give, on ANY slice *)
+Theorem C06_heap_up_terminates : forall fuel h j, (j < List.length h)%nat -> (j < fuel)%nat ->
+  exists h', hp_up fuel h j = Ok h' /\ List.length h' = List.length h.
+Proof. exact hp_up_total. Qed.
+Theorem C06_heap_down_terminates : forall fuel h i n, (n <= List.length h)%nat -> (n - i < fuel)%nat ->
+  exists h' i', hp_down_loop fuel h i n = Ok (h', i') /\ List.length h' = List.length h.
+Proof. exact hp_down_loop_total. Qed.
+
+(* REFINEMENT, one pop: when the slice holds the abstract queue's items, heap.Pop hands out an
+   item that the abstract queue accepts as a pick (present, and no other item sorts before it) *)
+Theorem C06_heap_pop_is_accepted_pick : forall q h,
+  NoDup (km_keys q) -> Permutation q (map h_data h) -> heap_inv h -> h <> [] ->
+  exists x hp, heap_Pop h = Ok (x, hp) /\ h_idx x = -1 /\
+    pop_pick (h_key x) q = Some ((h_act x, h_inact x), km_remove (h_key x) q) /\
+    Permutation (km_remove (h_key x) q) (map h_data hp) /\ heap_inv hp.
+Proof. exact pop_is_accepted_pick. Qed.
+Print Assumptions C06_heap_pop_is_accepted_pick.
+
+(* REFINEMENT, one scan: ForAllExpiredFlowRecordsDo on the array heap never panics or runs out
+   of fuel, and the abstract scan accepts the heap's own pop sequence with the same callbacks,
+   the same error flag and a related final state; every callback sees index -1 *)
+Theorem C06_heap_scan_refines : forall P now fails s c, wf_params P = true -> Inv s -> R s c ->
+  exists o s', cscan P now fails c = Ok o /\
+    scan Fixed P now fails (so_picks o) s = Some (s', so_cbs o, so_err o) /\
+    R s' (so_st o) /\ Forall (fun z => z = -1) (so_ix o).
+Proof. exact cscan_refines. Qed.
+Print Assumptions C06_heap_scan_refines.
+
+(* REFINEMENT, whole histories: for every history, the run on the array heap ends like the
+   abstract run along the heap's own picks ([heap_picks]), never EndReject; results are equal
+   and states related step by step; and that run satisfies the C06 oracle. This replaces the
+   former trusted assumption "container/heap hands out a minimal item". *)
+Theorem C06_concrete_heap : forall P ops, wf_params P = true ->
+  exists tr, run Fixed P (heap_picks P ops) 0 init = (tr, snd (crun P ops 0 cinit)) /\
+    snd (crun P ops 0 cinit) <> EndReject /\
+    Forall2 ent_rel tr (fst (crun P ops 0 cinit)) /\
+    C06_holds_on P (heap_picks P ops) tr = true.
+Proof. exact C06_concrete_heap_lemma. Qed.
+Print Assumptions C06_concrete_heap.
+
+(* every state of the run on the array heap: heap order, index fields = positions, one item per
+   flow of the map and vice versa; every popped item seen by a callback has index -1 *)
+Theorem C06_concrete_heap_states : forall P ops e, wf_params P = true -> In e (fst (crun P ops 0 cinit)) ->
+  heap_inv (cheap (ce_st e)) /\ Forall (fun z => z = -1) (ce_ix e) /\
+  NoDup (map h_key (cheap (ce_st e))) /\
+  forall k, km_find k (cflows (ce_st e)) = None <-> h_find k (cheap (ce_st e)) = None.
+Proof. exact crun_heap_inv. Qed.
+Print Assumptions C06_concrete_heap_states.
+
+(* non-vacuity: the history of C06_nonvacuous without any picks supplied; the heap finds them *)
+Example C06_concrete_heap_nonvacuous :
+  let ops := [ORec 0%N []; ORec 1%N []; ORec 2%N rec_src; OAdv 4; OScan [1%N] []; OExp;
+              OAdv 2; OScan [] []; OAdv 2; OScan [] []; OAdv 4; OScan [] []; OExp] in
+  snd (crun P0 ops 0 cinit) = EndOk /\ List.length (fst (crun P0 ops 0 cinit)) = 13%nat /\
+  map (fun o => match o with OScan _ pk => pk | _ => [] end) (heap_picks P0 ops) =
+    [[]; []; []; []; [0%N; 2%N; 1%N]; []; []; [1%N; 0%N]; []; [2%N]; []; [2%N]; []] /\
+  C06_holds_on P0 (heap_picks P0 ops) (fst (run Fixed P0 (heap_picks P0 ops) 0 init)) = true.
 Proof. vm_compute. repeat split. Qed.
